@@ -5,3 +5,4 @@ pub mod cfgwalk;
 pub mod mockpg;
 pub mod client;
 pub mod pooler;
+pub mod reloadobs;
